@@ -4,6 +4,11 @@ mod glue;
 mod model;
 
 mod c01;
+mod c09;
+mod c10;
+mod c11;
+mod c12;
+mod pat;
 
 use engine::*;
 use std::process::{Command, Stdio};
@@ -22,6 +27,10 @@ pub struct Prop {
 fn props() -> Vec<Prop> {
     vec![
         Prop { id: "C01", run: c01::run, replay: c01::replay, meta: c01::meta, workers: (1, 16), also_release: false },
+        Prop { id: "C09", run: c09::run, replay: c09::replay, meta: c09::meta, workers: (1, 8), also_release: true },
+        Prop { id: "C11", run: c11::run, replay: c11::replay, meta: c11::meta, workers: (4, 16), also_release: true },
+        Prop { id: "C12", run: c12::run, replay: c12::replay, meta: c12::meta, workers: (1, 16), also_release: false },
+        Prop { id: "C10", run: c10::run, replay: c10::replay, meta: c10::meta, workers: (1, 16), also_release: false },
     ]
 }
 
@@ -58,6 +67,11 @@ fn main() {
         .collect();
     for k in keys {
         std::env::remove_var(k);
+    }
+    // one fixed-offset zone so that (utc) and (local) differ and no DST edge is ever hit;
+    // children that study time zones (C16) set their own TZ before chrono is first used
+    if std::env::var_os("LV_KEEP_TZ").is_none() {
+        std::env::set_var("TZ", "<+0545>-5:45");
     }
     let args: Vec<String> = std::env::args().collect();
     if args.len() < 2 {
